@@ -25,7 +25,7 @@ manifest = {
     }],
     "checks": [],
     "not_applicable": [],
-    "notes": "All claims are at level 'other': structural necessary conditions of each property, decided for every path of the enumerated sites. See DESIGN.md. Known findings: /verif/known_findings.json.",
+    "notes": "All claims are at level 'other': structural necessary conditions of each property, decided for every path of the enumerated sites. See DESIGN.md. Known findings: /verif/known_findings.json. Evaluated both ways: ~170 seeded breaking changes (/verif/seeded, every one reported by the check of the property it was written against) and 120+ behaviour-preserving refactorings (/verif/refactors, every one silent after the corrections of DESIGN.md §7.8; the first-evaluation alarm rates of the fresh rounds are reported there).",
 }
 for pid in ids:
     if pid in CLAIMS:
